@@ -1,11 +1,88 @@
 import SageModel.Proto
+import SageModel.Model.C10
 
-/-! Driver ops for C10 (stub: no ops yet). -/
+/-! Driver ops for C10 (all arithmetic at `Float32`, compared bit-for-bit).
+
+`process max deiso u32(minmz) level centroid charge? [n (u32 mz, u32 int)…]  |  [k (u32 mass, u32 int)…] u32(tic)`  or `panic`
+`deiso   maxz u32(ppm) u32(minmz) [n (u32 mz, u32 int)…]                    |  [n (u32 mz, u32 int, z?, env?)…]`
+
+`agree` is exact token equality.  One exception, `process` with deisotoping: the code orders the deisotoped
+peaks with `sort_unstable_by`; when two of them have bit-equal (intensity, m/z) keys but different charge /
+envelope the order among them is unspecified, so on such inputs (and only on such) a reply that differs from
+the model's stable-sort answer is accepted iff the spec (which allows any choice among tied entries) accepts it.
+-/
 namespace Sage.C10
 open Sage.Proto
 
+def pPair : P (Float32 × Float32) := do
+  let a ← f32
+  let b ← f32
+  pure (a, b)
+
+def pPeak : P (Peak Float32) := do
+  let m ← f32
+  let i ← f32
+  pure { mass := m, intensity := i }
+
+def pDeiso : P (Deiso Float32) := do
+  let m ← f32
+  let i ← f32
+  let z ← opt nat
+  let e ← opt nat
+  pure { mz := m, intensity := i, charge := z, envelope := e }
+
+def outPeak (p : Peak Float32) : String := outF32 p.mass ++ " " ++ outF32 p.intensity
+
+def outDeiso (d : Deiso Float32) : String :=
+  outF32 d.mz ++ " " ++ outF32 d.intensity ++ " " ++ outOpt toString d.charge ++ " " ++ outOpt toString d.envelope
+
+/-- two deisotoped entries with the same sort key but a different payload: `sort_unstable_by` may order them either way -/
+def hasKeyTie (d : List (Deiso Float32)) : Bool :=
+  let rec go : List (Deiso Float32) → Bool
+    | [] => false
+    | x :: xs => xs.any (fun y => deisoKeyEq x y && (x.charge != y.charge || x.envelope != y.envelope)) || go xs
+  go d
+
 def handle (op : String) (args impl : List String) : Option Reply :=
   match op with
+  | "process" => do
+    let (k, deiso, minMz, level, centroid, charge, peaks) ← run (do
+      let k ← nat; let d ← bool; let m ← f32; let l ← nat; let c ← bool; let z ← opt nat
+      let p ← list pPair
+      pure (k, d, m, l, c, z, p)) args
+    let cfg : Cfg Float32 := { takeTopN := k, deisotope := deiso, minDeisoMz := minMz }
+    let raw : Raw Float32 := { level := level, centroid := centroid, charge := charge, peaks := peaks }
+    let model : String :=
+      match process cfg raw with
+      | none => "panic"
+      | some (l, t) => outList outPeak l ++ " " ++ outF32 t
+    let implS := " ".intercalate impl
+    -- spec on the implementation's reply
+    let spec : String :=
+      if impl == ["panic"] then
+        -- the only input class the code may reject: profile data at MS2
+        (if level == 2 && !centroid then "ok" else "bad:panic")
+      else
+        match run (do let l ← list pPeak; let t ← f32; pure (l, t)) impl with
+        | none => "bad:malformed_reply"
+        | some (out, t) =>
+          if level == 2 && !centroid then "bad:profile_accepted" else specProcess cfg raw out t
+    let r := exact model implS spec
+    if r.agree then pure r else
+      let tie := level == 2 && centroid && deiso &&
+        hasKeyTie (deisotope peaks (charge.getD 3) (Num.ofNat 10) minMz)
+      pure { r with agree := tie && spec == "ok" }
+  | "deiso" => do
+    let (maxz, ppm, minMz, peaks) ← run (do
+      let z ← nat; let p ← f32; let m ← f32; let l ← list pPair
+      pure (z, p, m, l)) args
+    let d := deisotope peaks maxz ppm minMz
+    let model := outList outDeiso d
+    let spec : String :=
+      match run (list pDeiso) impl with
+      | none => if impl == ["panic"] then "bad:panic" else "bad:malformed_reply"
+      | some out => specDeisotope peaks maxz ppm minMz out
+    pure (exact model (" ".intercalate impl) spec)
   | _ => none
 
 end Sage.C10
